@@ -2,6 +2,7 @@ package main
 
 import (
 	"fmt"
+	"math"
 	"sort"
 
 	"github.com/esimov/gogu"
@@ -16,6 +17,8 @@ import (
 //	13 FindByKey c a m        14 Pluck key ms          15 MapUnique m          16 MapEvery c a m
 //	17 MapSome c a m          18 MapContains v m       19 SliceToMap s1 s2     20 FilterMapCollection c a ms
 //	21 Filter2DMapCollection c a coll                  22 PartitionMap c a ms  23 MapCollection c m
+//	24 MapUnique[int,float64] m   25 Invert[int,float64] m   26 MapContains[int,float64] v m
+//	   (24-26: a wire value v is passed as the float64 v/4 and results are multiplied by 4 - exact; no NaN)
 //
 // value predicates (c,a): 0 true, 1 false, 2 even, 3 (< a), 4 (== a), 5 (> a)
 // key/value predicates:   0 true, 1 false, 2 k<a, 3 v==a, 4 k+v even, 5 k==a
@@ -237,7 +240,23 @@ func (b *W) Coll2(coll []map[int]map[int]int) *W {
 	return b
 }
 
-func c14Open(fn int) bool { return fn == 9 || fn == 10 || fn == 12 || fn == 13 || fn == 15 }
+// mapsFor builds the list-of-maps argument; on odd repetitions an empty map is passed as a nil map
+// (ranging over either is a no-op: the helpers must treat them alike).
+func mapsFor(flats [][]int, rep int) []map[int]int {
+	ms := make([]map[int]int, len(flats))
+	for i, f := range flats {
+		if len(f) == 0 && rep%2 == 1 {
+			ms[i] = nil
+			continue
+		}
+		ms[i] = buildMap(f, rep)
+	}
+	return ms
+}
+
+func c14Open(fn int) bool {
+	return fn == 9 || fn == 10 || fn == 12 || fn == 13 || fn == 15 || fn == 24 || fn == 25
+}
 
 // c14Once runs the helper once, with maps built in the rep-th insertion order.
 func c14Once(in []int64, rep int) []int64 {
@@ -289,10 +308,7 @@ func c14Once(in []int64, rep int) []int64 {
 			res = (&W{}).Map(gogu.FindByKey(m, c14VPred(c, a))).Out()
 		case 14:
 			key, flats := r.Int(), r.Intss()
-			ms := make([]map[int]int, len(flats))
-			for i, f := range flats {
-				ms[i] = buildMap(f, rep)
-			}
+			ms := mapsFor(flats, rep)
 			res = (&W{}).Ints(gogu.Pluck(ms, key)).Out()
 		case 15:
 			res = (&W{}).Map(gogu.MapUnique(buildMap(r.Ints(), rep))).Out()
@@ -310,10 +326,7 @@ func c14Once(in []int64, rep int) []int64 {
 			res = (&W{}).Int(0).Map(gogu.SliceToMap(s1, s2)).Out()
 		case 20:
 			c, a, flats := r.Int(), r.Int(), r.Intss()
-			ms := make([]map[int]int, len(flats))
-			for i, f := range flats {
-				ms[i] = buildMap(f, rep)
-			}
+			ms := mapsFor(flats, rep)
 			res = (&W{}).Maps(gogu.FilterMapCollection(ms, c14VPred(c, a))).Out()
 		case 21:
 			c, a, raw := r.Int(), r.Int(), readColl2(r)
@@ -328,15 +341,29 @@ func c14Once(in []int64, rep int) []int64 {
 			res = (&W{}).Coll2(gogu.Filter2DMapCollection(coll, c14MPred(c, a))).Out()
 		case 22:
 			c, a, flats := r.Int(), r.Int(), r.Intss()
-			ms := make([]map[int]int, len(flats))
-			for i, f := range flats {
-				ms[i] = buildMap(f, rep)
-			}
+			ms := mapsFor(flats, rep)
 			p := gogu.PartitionMap(ms, c14MPred(c, a))
 			res = (&W{}).Maps(p[0]).Maps(p[1]).Out()
 		case 23:
 			c, m := r.Int(), buildMap(r.Ints(), rep)
 			res = (&W{}).Ints(sortedCopy(gogu.MapCollection(m, c14VFun(c)))).Out()
+		case 24:
+			out := gogu.MapUnique(c14FloatMap(buildMap(r.Ints(), rep)))
+			im := make(map[int]int, len(out))
+			for k, v := range out {
+				im[k] = int(v * 4)
+			}
+			res = (&W{}).Map(im).Out()
+		case 25:
+			out := gogu.Invert(c14FloatMap(buildMap(r.Ints(), rep)))
+			im := make(map[int]int, len(out))
+			for v, k := range out {
+				im[int(v*4)] = k
+			}
+			res = (&W{}).Map(im).Out()
+		case 26:
+			v, m := r.Int(), buildMap(r.Ints(), rep)
+			res = []int64{b2i(gogu.MapContains(c14FloatMap(m), float64(v)/4))}
 		default:
 			res = []int64{-1}
 		}
@@ -345,6 +372,15 @@ func c14Once(in []int64, rep int) []int64 {
 		return resPanic()
 	}
 	return res
+}
+
+// c14FloatMap: the same map with float64 values v/4 (exact for the small values the generator uses).
+func c14FloatMap(m map[int]int) map[int]float64 {
+	out := make(map[int]float64, len(m))
+	for k, v := range m {
+		out[k] = float64(v) / 4
+	}
+	return out
 }
 
 func lessInts(a, b []int64) bool {
@@ -430,18 +466,23 @@ func genC14(g *Gen) {
 	kvpreds := [][2]int{{0, 0}, {1, 0}, {2, 1}, {2, 2}, {3, 0}, {3, 1}, {4, 0}, {5, 1}}
 	mpreds := [][2]int{{0, 0}, {1, 0}, {2, 0}, {3, 0}, {3, 1}, {4, 1}, {4, 2}, {5, 0}}
 	vals := []int{0, 1, 2}
-	// --- exhaustive: every map with <= 3 (thorough 4) entries over keys 0..3 x values {0,1,2}
-	maps := allMaps(4, vals, g.Pick(3, 4))
-	klen := g.Pick(2, 3)
+	// --- exhaustive: every map with <= 4 entries over keys 0..3 x values {0,1,2} (the bound of the quantifier; thorough: 5 and 0..4)
+	nk := g.Pick(4, 5) // thorough: 5 keys, up to 5 entries (every iteration order of 5 entries is still enumerated by c14_agree)
+	maps := allMaps(nk, vals, nk)
+	klen := 3
+	keyAlpha := make([]int, nk+1) // the keys plus one that is never present
+	for i := range keyAlpha {
+		keyAlpha[i] = i
+	}
 	for _, f := range maps {
 		n := len(f) / 2
 		nt := n >= 2
 		g.Count(fmt.Sprintf("map_entries=%d", n))
-		for _, fn := range []int{1, 2, 10, 15} {
+		for _, fn := range []int{1, 2, 10, 15, 24, 25} {
 			emit("exhaustive", nt, (&W{}).Int(fn).Ints(f))
 		}
 		// key lists over the 4 keys plus one key that is never present
-		slicesOver([]int{0, 1, 2, 3, 4}, klen, func(ks []int) {
+		slicesOver(keyAlpha, klen, func(ks []int) {
 			emit("exhaustive", nt, (&W{}).Int(3).Ints(f).Ints(ks))
 			emit("exhaustive", nt, (&W{}).Int(6).Ints(f).Ints(ks))
 		})
@@ -463,6 +504,7 @@ func genC14(g *Gen) {
 		}
 		for v := -1; v <= 3; v++ {
 			emit("exhaustive", nt, (&W{}).Int(18).Int(v).Ints(f))
+			emit("exhaustive", nt, (&W{}).Int(26).Int(v).Ints(f))
 		}
 	}
 	// --- lists of up to 3 maps from a pool (empty map, singletons, two qualifying values, shared keys)
@@ -612,9 +654,146 @@ func genC14(g *Gen) {
 		}
 		emit("random", nt, w)
 	}
+	// --- extreme stream: keys and values at and around the limits of int64 (and of 32-bit types) ---
+	const maxI, minI = math.MaxInt64, math.MinInt64
+	ek := []int{maxI, minI, 0, -1, 1 << 32}
+	ev := []int{maxI, minI, 1, 0}
+	exA := []int{maxI, minI, 0}
+	var exMaps [][]int
+	exMaps = append(exMaps, []int{})
+	for _, k := range ek {
+		for _, v := range ev {
+			exMaps = append(exMaps, []int{k, v})
+		}
+	}
+	for i := 0; i < len(ek); i++ {
+		for j := i + 1; j < len(ek); j++ {
+			for _, v1 := range ev {
+				for _, v2 := range ev {
+					exMaps = append(exMaps, []int{ek[i], v1, ek[j], v2})
+				}
+			}
+		}
+	}
+	exMaps = append(exMaps, []int{maxI, minI, minI, maxI, 0, maxI, -1, minI}, []int{maxI, 1, maxI - 1, 1, minI, 1, minI + 1, 1, 0, 1},
+		[]int{1 << 62, -(1 << 62), -(1 << 62), 1 << 62, 1 << 31, -(1 << 31)})
+	exKeyLists := [][]int{{maxI}, {minI, 0}, {maxI, minI, 5}, {3}, {maxI - 1, minI + 1, -1, 1 << 32}}
+	for _, f := range exMaps {
+		norm := flatOfMap(buildMap(f, 0)) // sorted by key, as everywhere on the wire
+		n := len(norm) / 2
+		nt := n >= 2
+		for _, fn := range []int{1, 2, 10, 15} {
+			emit("extreme", nt, (&W{}).Int(fn).Ints(norm))
+		}
+		for _, ks := range exKeyLists {
+			emit("extreme", nt, (&W{}).Int(3).Ints(norm).Ints(ks))
+			emit("extreme", nt, (&W{}).Int(6).Ints(norm).Ints(ks))
+		}
+		for _, a := range exA {
+			for _, c := range []int{2, 3, 5} {
+				emit("extreme", nt, (&W{}).Int(4).Int(c).Int(a).Ints(norm))
+				emit("extreme", nt, (&W{}).Int(7).Int(c).Int(a).Ints(norm))
+			}
+			for _, c := range []int{3, 4, 5} {
+				for _, fn := range []int{5, 11, 12, 13, 16, 17} {
+					emit("extreme", nt, (&W{}).Int(fn).Int(c).Int(a).Ints(norm))
+				}
+			}
+			emit("extreme", nt, (&W{}).Int(18).Int(a).Ints(norm))
+		}
+		emit("extreme", nt, (&W{}).Int(4).Int(4).Int(0).Ints(norm))
+		emit("extreme", nt, (&W{}).Int(7).Int(4).Int(0).Ints(norm))
+		for c := 0; c <= 4; c++ {
+			emit("extreme", nt, (&W{}).Int(8).Int(c).Ints(norm))
+			emit("extreme", nt, (&W{}).Int(23).Int(c).Ints(norm))
+		}
+		for c := 0; c <= 5; c++ {
+			emit("extreme", nt, (&W{}).Int(9).Int(c).Ints(norm))
+		}
+	}
+	for _, key := range exA { // lists of maps with extreme keys and values
+		mss := [][][]int{{{key, maxI}, {}, {key, minI, 7, 1}}, {{7, 1}, {key, 0}, {key, minI}}, {{}, {}, {key, maxI}}}
+		for _, ms := range mss {
+			emit("extreme", true, (&W{}).Int(14).Int(key).Intss(ms))
+			for _, c := range []int{3, 4, 5} {
+				emit("extreme", true, (&W{}).Int(20).Int(c).Int(key).Intss(ms))
+			}
+			for _, p := range [][2]int{{2, 0}, {3, key}, {4, key}, {5, 0}} {
+				emit("extreme", true, (&W{}).Int(22).Int(p[0]).Int(p[1]).Intss(ms))
+			}
+		}
+	}
+	slicesOver(ek, 3, func(s1 []int) { // SliceToMap with extreme keys (duplicates included) and values
+		s1c := cloneInts(s1)
+		s2 := make([]int, len(s1c))
+		for i := range s2 {
+			s2[i] = ev[(i+len(s1c))%len(ev)]
+		}
+		emit("extreme", len(s1c) >= 2, (&W{}).Int(19).Ints(s1c).Ints(s2))
+		emit("extreme", true, (&W{}).Int(19).Ints(s1c).Ints(append(cloneInts(s2), minI)))
+	})
+	// --- large stream: maps with 50..500 entries, key lists of 50..200, lists of 50..300 maps, slices of 100..2000 ---
+	nl := g.Pick(30, 300)
+	largeMap := func() []int {
+		n := 50 + g.Rng.Intn(451)
+		kw := []int{1000, 1 << 40}[g.Rng.Intn(2)]
+		vw := []int{4, 4, 1 << 40}[g.Rng.Intn(3)]
+		m := map[int]int{}
+		for len(m) < n {
+			m[g.Rng.Intn(2*kw+1)-kw] = g.Rng.Intn(2*vw+1) - vw
+		}
+		return flatOfMap(m)
+	}
+	for i := 0; i < nl; i++ {
+		f := largeMap()
+		n := len(f) / 2
+		for _, fn := range []int{1, 2, 10, 15} {
+			emit("large", true, (&W{}).Int(fn).Ints(f))
+		}
+		ks := make([]int, 50+g.Rng.Intn(151))
+		for j := range ks {
+			if g.Rng.Intn(2) == 0 {
+				ks[j] = f[2*g.Rng.Intn(n)]
+			} else {
+				ks[j] = g.Rng.Intn(4001) - 2000
+			}
+		}
+		emit("large", true, (&W{}).Int(3).Ints(f).Ints(ks))
+		emit("large", true, (&W{}).Int(6).Ints(f).Ints(ks))
+		kc, ka := g.Rng.Intn(6), g.Rng.Intn(2001)-1000
+		emit("large", true, (&W{}).Int(4).Int(kc).Int(ka).Ints(f))
+		emit("large", true, (&W{}).Int(7).Int(kc).Int(ka).Ints(f))
+		vc, va := g.Rng.Intn(6), g.Rng.Intn(9)-4
+		for _, fn := range []int{5, 11, 12, 13, 16, 17} {
+			emit("large", true, (&W{}).Int(fn).Int(vc).Int(va).Ints(f))
+		}
+		emit("large", true, (&W{}).Int(8).Int(g.Rng.Intn(5)).Ints(f))
+		emit("large", true, (&W{}).Int(23).Int(g.Rng.Intn(5)).Ints(f))
+		emit("large", true, (&W{}).Int(9).Int(g.Rng.Intn(6)).Ints(f))
+		emit("large", true, (&W{}).Int(18).Int(g.Rng.Intn(9)-4).Ints(f))
+	}
+	for i := 0; i < nl/2; i++ {
+		k := 50 + g.Rng.Intn(251)
+		ms := make([][]int, k)
+		for j := range ms {
+			ms[j] = randMap(5)
+		}
+		emit("large", true, (&W{}).Int(14).Int(g.Rng.Intn(41)-20).Intss(ms))
+		emit("large", true, (&W{}).Int(20).Int(g.Rng.Intn(6)).Int(g.Rng.Intn(9)-4).Intss(ms))
+		emit("large", true, (&W{}).Int(22).Int(g.Rng.Intn(6)).Int(g.Rng.Intn(9)-4).Intss(ms))
+		n := 100 + g.Rng.Intn(1901)
+		s1, s2 := make([]int, n), make([]int, n)
+		for j := range s1 {
+			s1[j], s2[j] = g.Rng.Intn(51), g.Rng.Intn(2001)-1000
+		}
+		emit("large", true, (&W{}).Int(19).Ints(s1).Ints(s2))
+		if i%5 == 0 {
+			emit("large", true, (&W{}).Int(19).Ints(s1).Ints(s2[:n-1]))
+		}
+	}
 }
 
 func init() {
 	register(&Prop{ID: "C14", Exec: execC14, Gen: genC14, Describe: describeC14,
-		Rule: "exhaustive: every map with <= 3 (thorough 4) entries over keys 0..3 x values {0,1,2} x (Keys, Values, Invert, MapUnique; Pick/Omit with every key list of length <= 2 (thorough 3) over keys 0..4; PickBy/OmitBy x 8 key-value predicates; FilterMap/Find/FindKey/FindByKey/MapEvery/MapSome x 8 value predicates; MapValues/MapCollection x 5 functions; MapKeys x 6 key functions incl. colliding ones; MapContains x 5 probes); every list of <= 3 (thorough 4) maps from a pool of 8 for Pluck/FilterMapCollection/PartitionMap and of <= 3 (4) maps-of-maps from a pool of 6 for Filter2DMapCollection; all pairs of slices of length <= 3 over {0,1,2} for SliceToMap; then seeded random maps with up to 12 entries. Each call is repeated 8 times (24 for the helpers that leave a choice open) on maps built in different insertion orders; distinct canonical outcomes are recorded. non-trivial = map with >= 2 entries / list of >= 2 maps or containing a map with >= 2 entries / key slice of length >= 2; distinct = distinct wire input"})
+		Rule: "exhaustive (both tiers at the bound of the quantifier): every map with <= 4 entries over keys 0..3 x values {0,1,2} (thorough: <= 5 entries over keys 0..4) x (Keys, Values, Invert, MapUnique; Pick/Omit with every key list of length <= 3 over the keys and one key that is never present, duplicates included; PickBy/OmitBy x 8 key-value predicates; FilterMap/Find/FindKey/FindByKey/MapEvery/MapSome x 8 value predicates; MapValues/MapCollection x 5 functions; MapKeys x 6 key functions incl. colliding ones; MapContains x 5 probes; MapUnique, Invert and MapContains also at float64 values v/4, no NaN); every list of <= 3 (thorough 4) maps from a pool of 8 (incl. the empty map, passed as a nil map on odd repetitions) for Pluck/FilterMapCollection/PartitionMap and of <= 3 (4) maps-of-maps from a pool of 6 for Filter2DMapCollection; all pairs of slices of length <= 3 over {0,1,2} for SliceToMap (unequal lengths included). extreme: maps with <= 2 (a few with 3-5) entries whose keys are in {MaxInt, MinInt, 0, -1, 2^32, +-2^62, +-2^31, MaxInt-1, MinInt+1} and values in {MaxInt, MinInt, 1, 0} through every helper, with extreme key lists / predicate arguments, lists of maps and SliceToMap with extreme keys. large: maps with 50..500 entries (keys up to +-2^40) through every helper, key lists of 50..200 keys, lists of 50..300 maps, SliceToMap on 100..2000 positions over 51 keys. random: seeded maps with up to 12 entries. Each call is repeated 8 times (24 for the helpers that leave a choice open) on maps built in different insertion orders; distinct canonical outcomes are recorded. non-trivial = map with >= 2 entries / list of >= 2 maps or containing a map with >= 2 entries / key slice of length >= 2; distinct = distinct wire input"})
 }
